@@ -28,6 +28,8 @@ FIXED = [
  ("fix: delimit names and values in the variant hash", ["C04"], "{X-A:'1X-B', X-B:'2'} and {X-A:'1', X-B:'X-B2'} shared a response id and overwrote each other"),
  ("fix: evaluate Vary over all field lines", ["C04"], "Vary: X-A, * matched on X-A alone; second Vary line and second request field line ignored"),
  ("fix: only decode percent-escapes of ASCII unreserved", ["C03"], "?q=%E9 and raw UTF-8 ?q=é shared a cache key"),
+ ("fix: percent-encode raw non-ASCII octets in cache keys", ["C03", "C19"], "raw invalid-UTF-8 request-target bytes: '?q=\\xe9' and '?q=\\xef\\xbf\\xbd' shared a stored response after the JSON index replaced invalid UTF-8 by U+FFFD (reported by a seeding sub-agent on the clean tree, then reproduced by C03 bulk)"),
+ ("fix: keep selecting header values that are not valid UTF-8", ["C09", "C04"], "a nominated request header value with obs-text bytes (X-A: caf\\xe9) never matched its own stored variant again, and caf\\xe9 / caf\\xef\\xbf\\xbd became equal in the index"),
  ("fix: keep the brackets of IPv6 literals", ["C03"], "http://[::1]:8080/ and http://[::1:8080]/ shared a cache key"),
  ("fix: include the scheme in the cache key of opaque http(s) URLs", ["C03"], "hand-built opaque http and https URLs shared a cache key"),
  ("fix: do not reference an entry in the variant index when storing it failed", ["C06", "C10"], "index rewritten with a reference to an entry whose Set failed (body read failure, store fault)"),
